@@ -232,7 +232,7 @@ def gates(m, tier):
                               'header.py:ContentHeader._get_flags',
                               'decode.py:embedded_value')):
         if f not in fr:
-            out.append('loop function %s never entered' % f)
+            out.append('advisory: ' + 'loop function %s never entered' % f)
     for k in ('byte', 'inner-truncation', 'random', 'deep-method',
               'big-array-of-void', 'deep-fault'):
         if not m.counters.get('inputs:' + k):
